@@ -101,6 +101,8 @@ func runComp(seed uint64, cc *CompCase, sched []simrt.Deviation, replay bool, st
 	}
 	out.Probes["pool-reuse"] += int(w.PoolHits)
 	out.Probes["spin-forced-yield"] += int(w.SpinYields)
+	out.Probes["task-stalled"] += int(w.Stalls)
+	out.Probes["task-stalled-steps"] += int(w.StallSteps)
 	if strat != nil {
 		out.Strategy = strat.Name()
 	}
